@@ -10,6 +10,7 @@ import (
 
 	"github.com/cloudwego/hertz/pkg/app"
 	"github.com/cloudwego/hertz/pkg/app/server"
+	hrender "github.com/cloudwego/hertz/pkg/app/server/render"
 
 	"verifharness/ev"
 	"verifharness/sconn"
@@ -17,23 +18,23 @@ import (
 
 // TestC09Wiring: the exported mutators that the other units leave out because they take a function
 // or change how the engine treats the context: SetClientIPFunc, SetFormValueFunc, Exile,
-// Request.SetIsTLS. A handler calls one of them; the next request, served with the recycled context
+// Request.SetIsTLS, and the exported field HTMLRender. A handler calls one of them; the next request, served with the recycled context
 // on the same connection or on another one, is asked what a new context would answer.
 //
-// On the current tree these four survive recycling (RequestContext.ResetWithoutConn does not know the
+// On the current tree the first three survive recycling (RequestContext.ResetWithoutConn does not know the
 // engine's defaults; they are applied once, when the pool allocates the context). That is recorded
 // as known finding D60: each case that fails is reported as such when the finding is listed, as a
 // violation otherwise.
 func TestC09Wiring(t *testing.T) {
 	rec := ev.New("wiring-setters")
 	type obsT struct {
-		ip, form, scheme string
-		exiled           bool
+		ip, form, scheme, render string
+		exiled                   bool
 	}
 	var which string
 	var got obsT
 	observe := func(ctx *app.RequestContext) obsT {
-		return obsT{ip: ctx.ClientIP(), form: string(ctx.FormValue("pq")), scheme: string(ctx.Request.Scheme()), exiled: ctx.IsExiled()}
+		return obsT{ip: ctx.ClientIP(), form: string(ctx.FormValue("pq")), scheme: string(ctx.Request.Scheme()), render: fmt.Sprintf("%T", ctx.HTMLRender), exiled: ctx.IsExiled()}
 	}
 	s := sconn.NewServer(func(h *server.Hertz) {
 		h.GET("/wire", func(c context.Context, ctx *app.RequestContext) {
@@ -46,6 +47,9 @@ func TestC09Wiring(t *testing.T) {
 				ctx.Exile()
 			case "Request.SetIsTLS":
 				ctx.Request.SetIsTLS(true)
+			case "HTMLRender":
+				// an exported field; assigning it is the only way to choose a renderer for one answer
+				ctx.HTMLRender = &hrender.HTMLDebug{}
 			}
 			ctx.SetBodyString("ok")
 		})
@@ -62,7 +66,10 @@ func TestC09Wiring(t *testing.T) {
 	s.Serve(sconn.New([][]byte{[]byte(probe)}, sconn.EOF))
 	fresh := got
 	var evals, known int64
-	for _, w := range []string{"SetClientIPFunc", "SetFormValueFunc", "Exile", "Request.SetIsTLS"} {
+	// listed under D60: the three whose defaults only the engine knows. What the protocol server itself
+	// hands to the context (the scheme of the connection, the engine's renderer) has to be back in place.
+	d60 := map[string]bool{"SetClientIPFunc": true, "SetFormValueFunc": true, "Exile": true}
+	for _, w := range []string{"SetClientIPFunc", "SetFormValueFunc", "Exile", "Request.SetIsTLS", "HTMLRender"} {
 		for _, shape := range []string{"same-connection", "next-connection"} {
 			which = w
 			got = obsT{}
@@ -76,7 +83,7 @@ func TestC09Wiring(t *testing.T) {
 			rec.Case(true, ev.HashString(w, shape), "wiring-"+w, "shape-"+shape)
 			if got != fresh {
 				msg := fmt.Sprintf("after a handler called %s, the next request (%s) observes %+v where a context no handler has touched observes %+v", w, shape, got, fresh)
-				if ev.ReportKnown(prop, "D60") {
+				if d60[w] && ev.ReportKnown(prop, "D60") {
 					known++
 					continue
 				}
